@@ -1406,7 +1406,7 @@ func c09Group(r *vr.Report, g c09Case, sequences bool) {
 			}
 			x := c09Ctx{r: r, c: m}
 			if s := st.snap(); !bytes.Equal(s, snap0) {
-				x.viol("stored-route-altered:tgt="+c09TgtNames[m.Tgt]+":after-other-copies", "producing copy number %d (for %s) altered the stored route:\n before %s\n after  %s",
+				x.viol("stored-route-altered:tgt="+c09TgtNames[m.Tgt], "producing copy number %d (for %s) altered the stored route:\n before %s\n after  %s",
 					n+1, c09TgtNames[m.Tgt], c09Hex(snap0), c09Hex(s))
 				snap0 = s
 			}
@@ -1416,7 +1416,7 @@ func c09Group(r *vr.Report, g c09Case, sequences bool) {
 					continue // route-server client: the stored route itself, covered by snap0
 				}
 				if s := c09SnapCopy(e.p, st.path); !bytes.Equal(s, e.snap) {
-					x.viol(fmt.Sprintf("copies-influence-each-other:first=%s:second=%s", c09TgtNames[members[e.i].Tgt], c09TgtNames[m.Tgt]),
+					x.viol(fmt.Sprintf("copies-influence-each-other:damaged-by-copy-for=%s", c09TgtNames[m.Tgt]),
 						"the copy made for %s changed when the copy for %s was produced:\n before %s\n after  %s",
 						c09TgtNames[members[e.i].Tgt], c09TgtNames[m.Tgt], c09Hex(e.snap), c09Hex(s))
 					e.snap = s
